@@ -16,6 +16,7 @@ type Kernel struct {
 	Known        []string // known-finding ids this kernel may report
 	Functions    []string // functions of /repo executed symbolically (for evidence)
 	NoInit       bool
+	Native       bool // sampled paths are replayed natively (go test -overlay) and must agree with the engine
 	ThoroughOnly bool
 }
 
